@@ -111,7 +111,14 @@ theorem raw_calls_checked (last : LastFilter) (input : ByteArray) (c0 : Coder) (
 /-! ### the instrumentation is live: without the invariant the checked functions do report `oob` -/
 
 /-- a probability read before any `lzma_decoder_reset` (empty array, as in a fresh LZMA2 coder) is reported -/
-example : ∃ s', rcBitC 0 (initLzma2 4096 [] (ByteArray.mk #[])) = .error .oob s' := ⟨_, rfl⟩
+example : ∃ s', rcBitC M_IS_MATCH 0 (initLzma2 4096 [] (ByteArray.mk #[])) = .error .oob s' := ⟨_, rfl⟩
+/-- an index INSIDE the flat model array but outside the member it is meant for is reported too: `is_match[12][0]`
+    (= flat index 192 = `is_rep[0]`) after `lzma_decoder_reset`, whereas the same index is accepted for `is_rep` -/
+example : (match rcBitC M_IS_MATCH P_IS_REP ((initLzma2 4096 [] (ByteArray.mk #[])).resetLzma { lc := 0, lp := 0, pb := 0 }) with
+           | .error .oob _ => true | _ => false) = true
+    ∧ (match rcBitC M_IS_REP P_IS_REP ((initLzma2 4096 [] (ByteArray.mk #[])).resetLzma { lc := 0, lp := 0, pb := 0 }) with
+           | .ok _ _ => true | _ => false) = true := by
+  decide +kernel
 /-- `dict_get` on an empty dictionary is reported -/
 example : dictGetC (initLzma2 4096 [] (ByteArray.mk #[])) 0 = none := by decide
 /-- a symbol decode from the fresh LZMA2 state (no properties seen yet) is reported, whereas the executable model reads
